@@ -288,6 +288,20 @@ def tool_space(ctx):
             shutil.rmtree(d, ignore_errors=True)
 
     common.parallel(one, jobs)
+    # benign answers of the system calls (one interrupted read / write at each position, transfers of one byte at a time): the buffer cursors of the tools' I/O layer under the sanitizers
+    d = os.path.join(root, "eintr")
+    os.makedirs(d)
+    with open(os.path.join(d, "f.bin"), "wb") as f:
+        f.write(bytes((i * 7 + 1) & 0xff for i in range(8192 + 37)))
+    subprocess.run([crypt, "-e", "-p", "pw", "-o", "f.enc", "f.bin"], cwd=d, env=env, stdout=subprocess.DEVNULL, stderr=subprocess.DEVNULL)
+    for var in ("VP_EINTR_READ", "VP_EINTR_WRITE", "VP_SHORT"):
+        for k in ((1,) if var == "VP_SHORT" else range(0, 8)):
+            e2 = dict(env)
+            e2[var] = str(k)
+            saved, env = env, e2
+            run([crypt, "-e", "-p", "pw", "-o", "o.enc", "f.bin"], d, "%s=%d (benign)" % (var, k))
+            run([crypt, "-d", "-p", "pw", "-o", "o.bin", "f.enc"], d, "%s=%d (benign)" % (var, k))
+            env = saved
     # passwords typed at the terminal (no -p / -k): lengths around the 1024-byte password buffers, on a pseudo-terminal
     d = os.path.join(root, "tty")
     os.makedirs(d)
